@@ -31,6 +31,17 @@ Case kinds (each replayable through execute):
           hand-built Feature(attributes=<dict with scalar values>) objects stored with create_db / update: attributes
           read from there are sequences of strings (scalar wrapped), the printed line / == / hash are those of the list
           form and of the feature parsed from the proper line
+  set     (case["member"]) the same on features whose line carries attributes spelled like the fixed columns / other members
+          of a Feature (score=0.93;source=HAVANA;end=7;id=..;dialect=..) and whose operations set such keys, half of them
+          through the Feature (f['source'] = 'x'): attributes like any other - wrapped, present in f.attributes, f[k] ==
+          f.attributes[k] under both switch settings, the eight fixed columns as they were
+  korder  features carrying keep_order=True under a dialect whose 'order' lists the keys in ANOTHER order than the feature's
+          own mapping (a later line parsed with an earlier line's dialect; Feature(attributes=.., keep_order=True); features of
+          a database imported and opened with keep_order=True): astuple()[9], _jsonify(attributes) read with stdlib json,
+          _unjsonify, Feature(attributes=text) all show the MAPPING's keys in the mapping's order (keep_order also switched on
+          the object after the fact); rows written back through add_relation(child_func= / parent_func=) and
+          update(merge_strategy='replace') read back (same FeatureDB, second FeatureDB on the file, raw column) to the
+          written feature's attributes in its key order
 Values are given as plain str / list / tuple and as instances of SUBCLASSES of these (Name(str), TagList(list),
 TagTuple(tuple); namedtuples of strings in kind print) in every kind that sets values (json, db, set, print, edit, eq
 pools, merge arguments): a sequence of strings stays that sequence (not wrapped once more), a str-subclass scalar is
@@ -73,6 +84,12 @@ RULE = ("mappings of 0-6 keys -> 0-4 values over arbitrary Unicode (JSON-structu
         "of the merge cases give one argument's lists as TagList and its scalars as Name; eq pools additionally hold two "
         "records of a database built from the ID-less line written 2-3 times (keys gene_1, gene_2) and both records of "
         "the ID-carrying line written twice under merge_strategy='create_unique' (keys x, x_1). "
+        "member: lines with 1-4 attributes named like Feature members (the eight column names twice as likely; values as "
+        "in files: 0.93, HAVANA, 7, -, 2, .), 1-6 operations, 50% feature[k]=, keys 60% member names, origins line / db "
+        "(40%) / jsontext / jsondb, GFF3 and GTF; korder: first line of 3-6 keys in random order, 1-3 later lines with a "
+        "re-ordered subset of them + 0-2 keys of their own, routes line / ctor (dict, Attributes, JSON text; default dialect "
+        "or the first line's) / db (memory or file, 1-3 write-backs: child_func, parent_func, update replace; scalar or "
+        "two-item value), keep_order flipped on the object in 40%. "
         "Non-trivial = the mapping has a scalar-set or subclass-instance value or a non-ASCII/control/escape-worthy character (json, set, "
         "print, db), the arguments share a key (merge), the pool has equal distinct objects (eq), an observation precedes "
         "an edit (edit), always (sjson); distinct by case content")
@@ -122,13 +139,38 @@ REQUIRED = ["alias: re-fetched features compared with the stored text", "alias: 
             "json: mappings with a value set as an instance of a list / tuple / str subclass",
             "db: values set as instances of list / tuple / str subclasses stored",
             "merge: calls with values given as list / str subclass instances",
-            "eq: pairs of database features with equal printed lines under different primary keys"]
+            "eq: pairs of database features with equal printed lines under different primary keys",
+            "set: fixed columns compared after the attribute operations",
+            "set: keys spelled like Feature members set through the Feature",
+            "set: keys spelled like the eight fixed columns set through the Feature",
+            "set: keys spelled like Feature members set through the attributes mapping",
+            "set: keys spelled like Feature members set while always_return_list=False",
+            "set: keys spelled like Feature members read through the Feature and through feature.attributes",
+            "set: keys spelled like Feature members viewed while always_return_list=False",
+            "set: features obtained from a database carrying attributes spelled like Feature members",
+            "set: features obtained from a line / JSON text carrying attributes spelled like Feature members",
+            "korder: JSON texts compared with the mapping (keys, key order, values)",
+            "korder: JSON texts read back with _unjsonify / Feature(attributes=text)",
+            "korder: features judged while keep_order is True", "korder: features judged while keep_order is False",
+            "korder: keep_order features whose key order differs from the order of their dialect",
+            "korder: keep_order features printed in another key order than their mapping's",
+            "korder: keep_order switched on the object after the fact",
+            "korder: features obtained through feature_from_line(keep_order=True)",
+            "korder: features obtained through Feature(keep_order=True)",
+            "korder: database features fetched with keep_order=True",
+            "korder: features written back through add_relation(child_func=...)",
+            "korder: features written back through add_relation(parent_func=...)",
+            "korder: features written back through update(merge_strategy='replace')",
+            "korder: written rows read back and compared with the written feature's mapping",
+            "korder: raw columns of written rows decoded with stdlib json"]
 REQUIRED_CLASSES = ["set origin=line", "set origin=db", "print origin=line", "print origin=db", "merge dict,dict",
                     "merge attrs,attrs", "merge dict,attrs", "merge attrs,dict", "set origin=jsontext", "set origin=jsondb",
                     "db with lone surrogates, file", "db with lone surrogates, memory", "edit origin=line", "edit origin=db", "edit origin=jsontext", "edit origin=jsondb",
                     "edit: inplace edit after an observation", "edit: column edit after an observation",
                     "edit: attribute mapping edit after an observation", "sjson text", "sjson update_file",
-                    "sjson update_conn", "sjson ctor_create", "sjson ctor_update"]
+                    "sjson update_conn", "sjson ctor_create", "sjson ctor_update",
+                    "set member-named keys origin=line", "set member-named keys origin=db", "set member-named keys origin=jsontext",
+                    "korder line", "korder ctor", "korder db"]
 ASSUMPTIONS = [
     "'sequence of strings' = list or tuple of str (a tuple that was set stays a legitimate stored value); JSON identity "
     "and database read-back are judged on key order and on values as sequences (a tuple comes back as a list); Python "
@@ -164,6 +206,11 @@ ASSUMPTIONS = [
     "printed line is read only while the feature carries the plain dialect of its format (GFF3 k=v1,v2;flag / GTF "
     "k \"v1,v2\";), with a reference reader, not with gffutils' dialect inference; the feature parsed from the proper "
     "line is compared only when the parser gives it the dialect of the edited feature and the intended attributes",
+    "member-named keys: the statement makes no exception for any key, so 'through the Feature' (f[key], key a str) reaches "
+    "the attributes mapping whatever the key is called; the fixed columns are reached by position (f[3]) or attribute",
+    "korder: 'keeps key order' = the order of the feature's own mapping, whatever order printing uses (keep_order prints "
+    "in the dialect's order); a write-back stores the feature as it is when written; lines whose parser reading differs "
+    "from the written attributes are skipped (ctor / line) or judged as read (db)",
     "sjson: hand-built features keep a list-valued ID (what the importer does with a scalar ID of a hand-built object is "
     "not covered by the statement); the raw column written for them is not judged, only what is read back; the "
     "feature parsed from the proper line is compared only when it prints like the list form",
@@ -859,6 +906,7 @@ def run_set(ctx, case):
         try:
             now = observe(f.attributes)
             via_feature = [[k, f[k]] for k, _ in now]
+            cols_now = [f.seqid, f.source, f.featuretype, f.start, f.end, f.score, f.strand, f.frame]
             t1 = f.astuple()
             j1 = helpers._jsonify(f.attributes)
             with Switch(False):
@@ -884,6 +932,8 @@ def run_set(ctx, case):
                     if form[0] in M.SUBCLASS_FORMS:
                         ctx.mon("set: subclass instances set through %s" % op["how"])
                         ctx.mon("set: subclass instances set while always_return_list=%s" % bool(op.get("switch", True)))
+        ctx.mon("set: fixed columns compared after the attribute operations")
+        member_counters(ctx, case, now)
         if bad_value(now):
             why = bad_value(now)
             extra = bad_detail(now)
@@ -892,6 +942,10 @@ def run_set(ctx, case):
             extra = {"got": as_lists(now), "expected": model.pairs()}
         elif via_feature != now:
             why = "feature[k] differs from feature.attributes[k]"
+            extra = {"feature[k]": repr(via_feature), "feature.attributes[k]": repr(now)}
+        elif cols_now != base_cols(case):
+            why = "setting / reading attributes changed the fixed columns of the feature"
+            extra = {"columns": repr(cols_now), "expected": repr(base_cols(case))}
         elif t0 != t1:
             why = "astuple() depends on always_return_list"
             extra = {"True": repr(t1), "False": repr(t0)}
@@ -934,6 +988,31 @@ def run_set(ctx, case):
     finally:
         close_all(dbs)
     drain(ctx, case)
+
+
+def member_counters(ctx, case, now):
+    """What a set case did with attribute keys spelled like the fixed columns / other members of a Feature."""
+    names = set(G.MEMBER_NAMES)
+    cols = set(G.COLUMN_NAMES)
+    for op in case["ops"]:
+        if op["how"] == "delete":
+            continue
+        for k, _ in op["items"]:
+            if k in names:
+                ctx.mon("set: keys spelled like Feature members set through %s" % (
+                    "the Feature" if op["how"] == "feature_setitem" else "the attributes mapping"))
+                if k in cols and op["how"] == "feature_setitem":
+                    ctx.mon("set: keys spelled like the eight fixed columns set through the Feature")
+                if not op.get("switch", True):
+                    ctx.mon("set: keys spelled like Feature members set while always_return_list=False")
+    n = sum(1 for k, _ in now if k in names)
+    if n:
+        ctx.mon("set: keys spelled like Feature members read through the Feature and through feature.attributes", n)
+        ctx.mon("set: keys spelled like Feature members viewed while always_return_list=False", n)
+    carried = [k for k, _ in case["base"] if k in names]
+    if carried:
+        ctx.mon("set: features obtained from %s carrying attributes spelled like Feature members" % (
+            "a database" if case["origin"] in ("db", "jsondb") else "a line / JSON text"))
 
 
 def used_subclass(case):
@@ -1574,7 +1653,188 @@ def run_sjson(ctx, case):
     drain(ctx, case)
 
 
-KINDS = {"json": run_json, "merge": run_merge, "db": run_db, "eq": run_eq, "set": run_set, "print": run_print, "alias": run_alias,
+# ---------------------------------------------------------------------------------
+# kind korder: features that carry keep_order=True under a dialect whose 'order' lists the keys in another order than the
+# feature's own mapping: the JSON text (astuple, _jsonify) and what is read back from it keep the MAPPING's key order
+# ---------------------------------------------------------------------------------
+KO_COLS = ["chr1", "src", "gene", 10, 20, ".", "+", "."]
+
+
+def json_pairs(text):
+    try:
+        return [[k, M.values_of(v)] for k, v in json.loads(text, object_pairs_hook=list)]
+    except (ValueError, TypeError, AttributeError) as ex:
+        return "not decodable: %r" % (ex,)
+
+
+def judge_korder(ctx, f, what, flip):
+    """The stored JSON text of f and what is read back from it against f's own mapping (keys, key order, values)."""
+    from gffutils import helpers
+    from gffutils.feature import Feature
+
+    P = as_lists(observe(f.attributes))
+    if bad_value(observe(f.attributes)):
+        return dict({"why": "%s: %s" % (what, bad_value(observe(f.attributes)))}, **bad_detail(observe(f.attributes)))
+    keys = [k for k, _ in P]
+    order = list(dict(f.dialect).get("order") or [])
+    mine = [k for k in keys if k in order]
+    theirs = [k for k in order if k in keys]
+    original = f.keep_order
+    settings = [original] + ([not original] if flip else [])
+    try:
+        for n, setting in enumerate(settings):
+            f.keep_order = setting
+            if setting:
+                ctx.mon("korder: features judged while keep_order is True")
+                if mine != theirs:
+                    ctx.mon("korder: keep_order features whose key order differs from the order of their dialect")
+                    shown = M.read_attributes(str(f).split("\t")[8], "gff3")
+                    if shown is not None and [k for k, _ in shown] != keys:
+                        ctx.mon("korder: keep_order features printed in another key order than their mapping's")
+            else:
+                ctx.mon("korder: features judged while keep_order is False")
+            if n:
+                ctx.mon("korder: keep_order switched on the object after the fact")
+            for name, text in (("astuple()[9]", f.astuple()[9]), ("_jsonify(attributes)", helpers._jsonify(f.attributes))):
+                info = {"feature": what, "keep_order": setting, "json": text, "mapping": P, "dialect order": order}
+                ctx.mon("korder: JSON texts compared with the mapping (keys, key order, values)")
+                if json_pairs(text) != P:
+                    return dict(info, why="%s of a feature does not hold the attributes in the mapping's key order "
+                                          "(stdlib json reader)" % name, read=json_pairs(text))
+                back = as_lists(observe(helpers._unjsonify(text, isattributes=True)))
+                ctx.mon("korder: JSON texts read back with _unjsonify / Feature(attributes=text)", 2)
+                if back != P:
+                    return dict(info, why="_unjsonify(%s) differs from the attributes (keys, key order or values)" % name, got=back)
+                g = as_lists(observe(Feature(attributes=text).attributes))
+                if g != P:
+                    return dict(info, why="Feature(attributes=%s) differs from the attributes (keys, key order or values)" % name, got=g)
+            if as_lists(observe(f.attributes)) != P:
+                return {"why": "%s: converting to JSON changed the feature's own mapping" % what, "before": P,
+                        "after": as_lists(observe(f.attributes))}
+    finally:
+        f.keep_order = original
+    return None
+
+
+def korder_db(ctx, case, lines, dbs):
+    import gffutils
+
+    fn = ":memory:"
+    if case.get("file"):
+        fn = ctx.tmp(".db")
+        dbs.append(("path", fn))
+    db = gffutils.create_db("\n".join(lines) + "\n", fn, from_string=True, keep_order=True)
+    dbs.append(db)
+    if case.get("file"):
+        db.conn.close()
+        db = gffutils.FeatureDB(fn, keep_order=True)
+        dbs.append(db)
+    for i, p in enumerate(case["lines"]):
+        f = db["g%d" % i]
+        if as_lists(observe(f.attributes)) != p:
+            ctx.mon("korder: imported line read to other attributes / another key order (judged as it is)")
+        if f.keep_order:
+            ctx.mon("korder: database features fetched with keep_order=True")
+        bad = judge_korder(ctx, f, "feature g%d fetched through FeatureDB(keep_order=True)" % i, case["flip"])
+        if bad:
+            return bad
+    for n, w in enumerate(case["writes"]):
+        fid = "g%d" % w["pick"]
+        f = db[fid]
+        value = "g0" if w["key"] == "Parent" else "w%d" % n
+        v = value if w["scalar"] else [value, "second"]
+
+        def edit(parent, child, _which=w["how"], _k=w["key"], _v=v):
+            tgt = child if _which == "child_func" else parent
+            tgt[_k] = _v
+            return tgt
+        if w["how"] == "child_func":
+            db.add_relation("g0", f, 1 + n, child_func=edit)
+        elif w["how"] == "parent_func":
+            db.add_relation(f, "g0", 1 + n, parent_func=edit)
+        else:
+            f[w["key"]] = v
+            db.update([f], merge_strategy="replace")
+        ctx.mon("korder: features written back through %s" % {"child_func": "add_relation(child_func=...)",
+                                                               "parent_func": "add_relation(parent_func=...)",
+                                                               "update_replace": "update(merge_strategy='replace')"}[w["how"]])
+        P = as_lists(observe(f.attributes))
+        if dict(P).get(w["key"]) != ([v] if w["scalar"] else v):
+            return {"why": "value set on a database feature is not the wrapped / given sequence", "key": w["key"], "got": P}
+        readers = [("the same FeatureDB", db)]
+        if case.get("file"):
+            other = gffutils.FeatureDB(fn)
+            dbs.append(other)
+            readers.append(("a second FeatureDB on the file (keep_order=False)", other))
+        for name, rd in readers:
+            again = as_lists(observe(rd[fid].attributes))
+            ctx.mon("korder: written rows read back and compared with the written feature's mapping")
+            if again != P:
+                return {"why": "attributes read back after %s differ from the attributes of the feature that was written "
+                               "(keys, key order or values)" % w["how"], "read through": name, "id": fid, "got": again,
+                        "written": P, "dialect order": list(db.dialect.get("order") or [])}
+        raw = db.conn.execute("SELECT attributes FROM features WHERE id = ?", (fid,)).fetchone()[0]
+        ctx.mon("korder: raw columns of written rows decoded with stdlib json")
+        if json_pairs(raw) != P:
+            return {"why": "raw attributes column written by %s does not hold the attributes in the mapping's key order" % w["how"],
+                    "id": fid, "column": raw, "written": P}
+        bad = judge_korder(ctx, db[fid], "feature %s fetched after %s" % (fid, w["how"]), case["flip"])
+        if bad:
+            return bad
+    return None
+
+
+def run_korder(ctx, case):
+    from gffutils.attributes import Attributes
+    from gffutils.feature import Feature, feature_from_line
+
+    lines = [M.render_line(KO_COLS, p, "gff3") for p in case["lines"]]
+    dbs = []
+    bad = None
+    try:
+        try:
+            if case["route"] == "db":
+                bad = korder_db(ctx, case, lines, dbs)
+            else:
+                first = feature_from_line(lines[0])
+                for p, line in zip(case["lines"][1:], lines[1:]):
+                    if case["route"] == "line":
+                        f = feature_from_line(line, dialect=first.dialect, keep_order=True)
+                        what = "feature_from_line(line, dialect=<that of an earlier line>, keep_order=True)"
+                    else:
+                        if case["attrs_as"] == "dict":
+                            attrs = dict((k, list(v)) for k, v in p)
+                        elif case["attrs_as"] == "json":
+                            attrs = json.dumps(dict((k, list(v)) for k, v in p))
+                        else:
+                            attrs = Attributes()
+                            for k, v in p:
+                                attrs[k] = list(v)
+                        f = Feature(seqid="chr1", source="src", featuretype="gene", start=10, end=20, attributes=attrs,
+                                    dialect=None if case["dialect"] == "default" else first.dialect, keep_order=True)
+                        what = "Feature(attributes=<%s>, keep_order=True)" % case["attrs_as"]
+                    if as_lists(observe(f.attributes)) != p:
+                        ctx.skip("korder: the parser / constructor gives other attributes than written (not judged)")
+                        continue
+                    ctx.mon("korder: features obtained through %s" % ("feature_from_line(keep_order=True)"
+                                                                       if case["route"] == "line" else "Feature(keep_order=True)"))
+                    bad = judge_korder(ctx, f, what, case["flip"])
+                    if bad:
+                        break
+        except AssertionError:
+            raise
+        except Exception as ex:
+            bad = {"why": "keep_order case (%s) raised %s" % (case["route"], type(ex).__name__), "exception": repr(ex)}
+        if bad:
+            ctx.violation(case, bad)
+            contracts.drain()
+            return
+    finally:
+        close_all(dbs)
+    drain(ctx, case)
+
+
+KINDS = {"korder": run_korder, "json": run_json, "merge": run_merge, "db": run_db, "eq": run_eq, "set": run_set, "print": run_print, "alias": run_alias,
          "edit": run_edit, "sjson": run_sjson}
 
 
@@ -1626,6 +1886,17 @@ def gen_set_case(rng, kind):
     keys = [k for k, _ in base if k not in ("ID", "gene_id", "transcript_id")]
     # namedtuples of strings are set in kind print only (where no JSON text is asked for: see ASSUMPTIONS)
     return gen_origin(rng, {"kind": kind, "fmt": fmt, "base": base, "ops": G.ops(rng, keys, ntuple=(kind == "print"))})
+
+
+def gen_member_case(rng):
+    """kind set on a feature whose line carries attributes spelled like Feature members (score=0.93;source=HAVANA) and
+    whose operations set such keys, half of them through the Feature."""
+    fmt = "gtf" if rng.random() < 0.25 else "gff3"
+    base = G.member_base(rng, fmt)
+    keys = [k for k, _ in base if k not in ("ID", "gene_id", "transcript_id")]
+    case = gen_origin(rng, {"kind": "set", "fmt": fmt, "base": base, "ops": G.member_ops(rng, keys)}, p_db=0.4, p_json=0.12)
+    case["member"] = True
+    return case
 
 
 def gen_edit_case(rng):
@@ -1776,6 +2047,16 @@ def run(ctx):
         execute(ctx, case)
         ctx.case(case, set_nontrivial(case), sample=case, cls="set origin=" + case["origin"])
         ctx.classes["set fmt=" + case["fmt"]] += 1
+    # 5b. attribute keys spelled like the fixed columns / other members of a Feature
+    for _ in range(ctx.budget(3000, 60000)):
+        case = gen_member_case(rng)
+        execute(ctx, case)
+        ctx.case(case, True, sample=case if rng.random() < 0.05 else None, cls="set member-named keys origin=" + case["origin"])
+    # 5c. keep_order features under a dialect that lists the keys in another order
+    for _ in range(ctx.budget(900, 18000)):
+        case = G.korder_case(rng)
+        execute(ctx, case)
+        ctx.case(case, True, sample=case if rng.random() < 0.05 else None, cls="korder " + case["route"])
     # 6./7. the two places where a defect is expected to flood come last, so that they cannot push other reports out
     # of the per-shard record; even shards start with the printed line, odd shards with merge under the switch
     edit_phase(ctx, rng)
